@@ -527,7 +527,11 @@ def main(cli_argv=None, return_args=False):
             require_file_existent(_parser, filename, name=arg_name)
         sync_properties(**args_dict)
     elif command == "gen":
-        if path.isfile(args.output_filename) and args.phase == 0:
+        if path.isfile(args.output_filename) and (
+            args.phase == 0
+            or args.emit_name
+            not in frozenset(("sqlalchemy", "sqlalchemy_hybrid", "sqlalchemy_table"))
+        ):
             raise IOError(
                 "File exists and this is a destructive operation. Delete/move {output_filename!r} then"
                 " rerun.".format(output_filename=args.output_filename)
